@@ -64,6 +64,13 @@ def mag_case(draw):
 @st.composite
 def exact_case(draw):
     a = draw(operand(allow_exact=False))
+    if draw(st.integers(0, 5)) == 0:
+        # a measured zero: the value is 0, its absolute uncertainty is not
+        e0 = draw(st.sampled_from([0.1, 2.5, 1e-3]))
+        if isinstance(a["x"], list):
+            a = {"x": [0.0] + a["x"][1:], "e": e0}
+        else:
+            a = {"x": 0.0, "e": e0}
     k = draw(st.one_of(st.integers(-9, 9).filter(lambda i: i != 0).map(float), vals, st.sampled_from([-1.0, -2.5, 0.5])))
     form = draw(st.sampled_from(["a*k", "k*a", "a/k", "a*K", "K*a", "a/K"]))   # K: Magnitude without error
     return {"kind": "exact", "a": a, "k": k, "form": form}
@@ -92,7 +99,7 @@ def conv_case(draw):
     a = draw(operand(allow_exact=False))
     # the error may be set afterwards with the in-place setter, as a Python int (stays an int until the conversion)
     int_abse = draw(st.sampled_from([None, None, None, 1, 5, 50]))
-    return {"kind": "conv", "u": u, "v": w, "a": a, "int_abse": int_abse}
+    return {"kind": "conv", "u": u, "v": w, "a": a, "int_abse": int_abse, "rebase": draw(st.integers(0, 4)) == 0}
 
 
 @st.composite
@@ -339,6 +346,23 @@ def check_conv(case, v):
     x0 = _np(q.value())
     f0 = R.factor_of_expression(q.units())
     r0 = _np(q.rele())
+    if case.get("rebase"):
+        # rebase() re-expresses mixed units of one dimension (cm*m -> cm2): a linear conversion like any other
+        qr = Quantity(_mk(a), tu)
+        if case.get("int_abse"):
+            qr = Quantity(a["x"] if not isinstance(a["x"], list) else list(a["x"]), tu)
+            qr.abse(int(case["int_abse"]))
+        qr.rebase()
+        fr = R.factor_of_expression(qr.units())
+        if qr.abse() is None or not _eq(_np(qr.abse()) * fr, e0 * f0, 1e-10):
+            return v.fail("conversion-error", f"Quantity({a['x']!r}+-{a['e']!r},{tu!r}).rebase() -> {qr.units()}: abse "
+                                              f"{qr.abse()!r} (base {None if qr.abse() is None else _np(qr.abse()) * fr!r}), "
+                                              f"expected base {e0 * f0!r}")
+        if not _eq(qr.rele(), r0, 1e-9):
+            return v.fail("conversion-rele", f"rebase() of Quantity({a['x']!r}+-{a['e']!r},{tu!r}): relative error "
+                                             f"{r0!r} -> {qr.rele()!r}")
+        if fr != f0:
+            v.label("rebase_changed_units")
     q.to(tv)
     err = q.abse()
     if err is None:
